@@ -50,6 +50,7 @@ type c16Doc struct {
 	indent    string
 	suppliers []c16Supplier
 	recs      []c16Rec
+	noFinalNL bool // the file ends with its last non-empty line, without a line terminator
 }
 
 func c16Word(rng *rand.Rand, alpha string, min, max int) string {
@@ -126,6 +127,8 @@ type c16Shape struct {
 	maxIso    int
 	emptyBias int // percent chance that any optional field is empty
 	headerN   int
+	noFinalNL bool
+	lastRefs  int // 0: as drawn; 1: the last record has only its <8> line; 2: the last record has at least one reference continuation line
 }
 
 func c16NewDoc(rng *rand.Rand, sh c16Shape) c16Doc {
@@ -188,6 +191,16 @@ func c16NewDoc(rng *rand.Rand, sh c16Shape) c16Doc {
 		}
 		d.recs = append(d.recs, r)
 	}
+	d.noFinalNL = sh.noFinalNL
+	if n := len(d.recs); n > 0 {
+		last := &d.recs[n-1]
+		switch {
+		case sh.lastRefs == 1:
+			last.refs = last.refs[:1]
+		case sh.lastRefs == 2 && len(last.refs) < 2:
+			last.refs = append(last.refs, c16Prose(rng, 12)+".")
+		}
+	}
 	return d
 }
 
@@ -217,6 +230,12 @@ func c16Write(d c16Doc) []byte {
 		}
 		b.WriteString("\n")
 	}
+	if d.noFinalNL {
+		// the file stops right after its last non-empty line: the last record's
+		// <8> line or reference continuation line (with no record: the last
+		// supplier line, the title or the last header line)
+		return []byte(strings.TrimRight(b.String(), "\n"))
+	}
 	return []byte(b.String())
 }
 
@@ -236,10 +255,26 @@ func c16Describe(d c16Doc, r *c16Rec) string {
 		s += " (first: " + string(d.suppliers[0].code) + " = " + strconv.Quote(d.suppliers[0].name) + ")"
 	}
 	s += fmt.Sprintf(", %d record(s)", len(d.recs))
+	if d.noFinalNL {
+		s += ", no final newline (last line: " + c16LastLine(d) + ")"
+	}
 	if r != nil {
 		s += fmt.Sprintf("; record <1>%s <2>%s <3>%s <4>%s <5>%s <6>%s <7>%s <8>%s", r.name, c16Clip(r.iso), r.site, r.meth, r.org, r.source, r.letters, c16Clip(r.refs[0]))
 	}
 	return s
+}
+
+// c16LastLine names the kind of the last line of a listing without final newline.
+func c16LastLine(d c16Doc) string {
+	switch n := len(d.recs); {
+	case n > 0 && len(d.recs[n-1].refs) > 1:
+		return "reference continuation line"
+	case n > 0:
+		return "<8> line"
+	case len(d.suppliers) > 0:
+		return "supplier line"
+	}
+	return "title or header line"
 }
 
 func c16Clip(s string) string {
@@ -252,6 +287,9 @@ func c16Clip(s string) string {
 // c16CheckDoc evaluates the records and suppliers clauses on one document.
 func c16CheckDoc(rec, sup *verifRun, d c16Doc, text []byte, parse func([]byte) map[string]Enzyme, tag string) map[string]Enzyme {
 	key := fmt.Sprintf("%s recs=%d supp=%d indent=%q header=%d", tag, len(d.recs), len(d.suppliers), d.indent, len(d.header))
+	if d.noFinalNL {
+		key += " no-final-newline last-line=" + c16LastLine(d)
+	}
 	rec.Case(key, len(d.recs) > 0)
 	anyLetters := false
 	for _, r := range d.recs {
@@ -261,11 +299,41 @@ func c16CheckDoc(rec, sup *verifRun, d c16Doc, text []byte, parse func([]byte) m
 	}
 	sup.Case(key, anyLetters)
 	var got map[string]Enzyme
-	if !rec.Guard("panic", c16Describe(d, nil), func() { got = parse(text) }) {
+	// nlOnly (decided once, on demand): does the listing with its final newline
+	// put back satisfy both clauses? Then the missing line terminator is what
+	// makes the listing fail.
+	nlState := 0
+	nlOnly := func() bool {
+		if nlState == 0 {
+			nlState = 2
+			withNL := d
+			withNL.noFinalNL = false
+			func() {
+				defer func() { _ = recover() }()
+				if reflect.DeepEqual(c16Normal(Parse(c16Write(withNL))), c16Normal(c16Expected(withNL))) {
+					nlState = 1
+				}
+			}()
+		}
+		return nlState == 1
+	}
+	panicClass := "panic"
+	if d.noFinalNL {
+		panicClass = "panic-without-final-newline"
+	}
+	if !rec.Guard(panicClass, c16Describe(d, nil), func() { got = parse(text) }) {
 		return nil
 	}
+	// Shape of a failing listing for the records clause: a listing without final
+	// newline whose failure goes away when the line terminator is added.
+	recClass := func(class string) string {
+		if d.noFinalNL && nlOnly() {
+			return "no-final-newline"
+		}
+		return class
+	}
 	if len(got) != len(d.recs) {
-		rec.Fail("entry-count-differs", c16Describe(d, nil), fmt.Sprintf("%d entries, want %d", len(got), len(d.recs)))
+		rec.Fail(recClass("entry-count-differs"), c16Describe(d, nil), fmt.Sprintf("%d entries, want %d", len(got), len(d.recs)))
 	}
 	table := map[byte]string{}
 	for _, s := range d.suppliers {
@@ -276,7 +344,9 @@ func c16CheckDoc(rec, sup *verifRun, d c16Doc, text []byte, parse func([]byte) m
 	// letter) when the table is indented with a tab instead of blanks, or when
 	// another supplier line is put in front of the first one?
 	var supClasses []string
-	if w0 := c16Wrong(d, got); len(w0) > 0 {
+	if w0 := c16Wrong(d, got); len(w0) > 0 && d.noFinalNL && nlOnly() {
+		supClasses = []string{"no-final-newline"}
+	} else if len(w0) > 0 {
 		tabbed, shifted, both := d, d, d
 		tabbed.indent = "\t"
 		dummy := c16Supplier{c16UnusedCode(d), "Placeholder Supplier (1/00)"}
@@ -297,7 +367,7 @@ func c16CheckDoc(rec, sup *verifRun, d c16Doc, text []byte, parse func([]byte) m
 		r := &d.recs[i]
 		g, ok := got[r.name]
 		if !ok {
-			rec.Fail("entry-missing", c16Describe(d, r), "no entry under key "+strconv.Quote(r.name))
+			rec.Fail(recClass("entry-missing"), c16Describe(d, r), "no entry under key "+strconv.Quote(r.name))
 			continue
 		}
 		var diffs []string
@@ -318,8 +388,7 @@ func c16CheckDoc(rec, sup *verifRun, d c16Doc, text []byte, parse func([]byte) m
 			diffs = append(diffs, fmt.Sprintf("isoschizomers %q want %q", g.Isoschizomers, r.iso))
 		}
 		if len(diffs) > 0 {
-			cl := "field-differs"
-			rec.Fail(cl, c16Describe(d, r), strings.Join(diffs, "; "))
+			rec.Fail(recClass("field-differs"), c16Describe(d, r), strings.Join(diffs, "; "))
 		}
 		// suppliers
 		var want []string
@@ -426,6 +495,21 @@ func c16CheckExport(ex *verifRun, m map[string]Enzyme, what string) {
 	}
 }
 
+// c16Normal maps nil, [] and [""] lists to nil so that two results can be compared.
+func c16Normal(m map[string]Enzyme) map[string]Enzyme {
+	out := map[string]Enzyme{}
+	for k, e := range m {
+		if len(e.Isoschizomers) == 0 || len(e.Isoschizomers) == 1 && e.Isoschizomers[0] == "" {
+			e.Isoschizomers = nil
+		}
+		if len(e.CommercialAvailability) == 0 {
+			e.CommercialAvailability = nil
+		}
+		out[k] = e
+	}
+	return out
+}
+
 // c16Expected builds the map the property describes from the description alone.
 func c16Expected(d c16Doc) map[string]Enzyme {
 	table := map[byte]string{}
@@ -503,7 +587,8 @@ func TestVerifC16(t *testing.T) {
 	indents := []string{"                ", "                ", "\t", "\t\t", " ", "    ", "\t\t\t\t", "        "}
 	dom := "listings from an independent format-31 writer: every record count 0..300 once plus " + strconv.Itoa(nRandom) + " seeded listings with 0..300 records; 0..40 lines of header prose (blank and one-blank lines, indented lines, example supplier lines as in the real header, <ENZYME NAME>-style words, non-ASCII); " +
 		"supplier table of 0..26 lines (distinct code letters A..Z in alphabetical order, name of 1..4 words plus a date) indented with 16 spaces (distributed layout), 1, 4 or 8 spaces, or 1, 2 or 4 tabs; 0..15 distinct letters per <7> field, all from the table; " +
-		"any of <2>..<8> empty with probability 0/10/50 % per listing; 1..4 reference lines per record (only the first is tagged); every 9th listing read through Read on a temp file; plus the distributed sample data/rebase_test.txt against an independent reader"
+		"any of <2>..<8> empty with probability 0/10/50 % per listing; 1..4 reference lines per record (only the first is tagged); every 9th listing read through Read on a temp file; " +
+		"final newline: all of the above end with a blank line, and in addition listings that end WITHOUT a final newline right after the last record's <8> line or after its last reference continuation line (with no record: after the last supplier, title or header line): the small shapes (0..3 records, so single-record listings too, x 0..3 suppliers x spaces/tab) in both endings, every record count 0..300 once in each ending, and " + strconv.Itoa(nRandom/3) + " further seeded listings; plus the distributed sample data/rebase_test.txt against an independent reader"
 	rec := newVerifRun("C16", "io/rebase.Parse/post/records", dom+"; compared per record: key, name, isoschizomer list (an empty <2> field may come back as nil, [] or [\"\"]), recognition sequence, methylation site, organism, source, first reference; entry count; non-trivial = at least one record")
 	sup := newVerifRun("C16", "io/rebase.Parse/post/suppliers", dom+"; compared per record: CommercialAvailability == names of the <7> letters, in order, from the file's own table (nil and empty equal); non-trivial = at least one record with a supplier letter")
 	ex := newVerifRun("C16", "io/rebase.Export/post/json-roundtrip", "json.Unmarshal(Export(m)) == m (nil and empty lists equal) for m = the result of Parse on each listing above, and m = the map the listing describes built directly (suppliers decoded by the oracle), and the empty map; non-trivial = non-empty map")
@@ -578,6 +663,15 @@ func TestVerifC16(t *testing.T) {
 
 	srng := rand.New(rand.NewSource(seed ^ 0x16))
 	idx := 0
+	// listings without final newline: their own index range and shape stream,
+	// so that the listings with final newline stay what they were
+	nrng := rand.New(rand.NewSource(seed ^ 0x1616))
+	nidx := 1000000
+	runNoNL := func(sh c16Shape, lastRefs int) {
+		sh.noFinalNL, sh.lastRefs = true, lastRefs
+		run(nidx, sh)
+		nidx++
+	}
 	// smallest shapes first so that the recorded examples are small
 	for _, in := range []string{"                ", "\t"} {
 		for n := 0; n <= 3; n++ {
@@ -587,9 +681,31 @@ func TestVerifC16(t *testing.T) {
 			}
 		}
 	}
+	for _, in := range []string{"                ", "\t"} {
+		for n := 0; n <= 3; n++ {
+			for ns := 0; ns <= 3; ns++ {
+				for lastRefs := 1; lastRefs <= 2; lastRefs++ {
+					if n == 0 && lastRefs == 2 {
+						continue
+					}
+					for _, eb := range []int{0, 50} { // with all fields filled, and with empty <7>/<8> fields likely
+						runNoNL(c16Shape{nRecs: n, indent: in, nSupp: ns, maxLett: 2, maxIso: 2, emptyBias: eb, headerN: n % 2}, lastRefs)
+					}
+				}
+			}
+		}
+	}
 	for n := 0; n <= 300; n++ {
 		run(idx, shape(srng, n))
 		idx++
+	}
+	for n := 0; n <= 300; n++ {
+		for lastRefs := 1; lastRefs <= 2; lastRefs++ {
+			if n == 0 && lastRefs == 2 {
+				continue
+			}
+			runNoNL(shape(nrng, n), lastRefs)
+		}
 	}
 	for i := 0; i < nRandom; i++ {
 		n := srng.Intn(301)
@@ -598,6 +714,13 @@ func TestVerifC16(t *testing.T) {
 		}
 		run(idx, shape(srng, n))
 		idx++
+	}
+	for i := 0; i < nRandom/3; i++ {
+		n := nrng.Intn(301)
+		if !thorough && i%4 != 0 {
+			n = nrng.Intn(30)
+		}
+		runNoNL(shape(nrng, n), 0)
 	}
 	c16CheckExport(ex, map[string]Enzyme{}, "empty map")
 
